@@ -168,6 +168,7 @@ func C12_FullQueue() {
 	env.Assert("C12.main.no_panic", p != 1)
 	env.Assert("C12.main.takes_every_event", env.ChanPending(n.m.messagesChannel) == 0)
 	env.Assert("C12.main.takes_every_event", env.ChanPending(n.m.mainUpdateStateChannel) == 0)
+	env.Assert("C14.update_state_taken_despite_full_queue", env.ChanPending(n.m.mainUpdateStateChannel) == 0 && env.ChanBuffered(n.m.worker.workerUpdateStateChannel) == 1)
 	env.Assert("C12.main.takes_every_event", env.ChanBuffered(n.m.worker.workerUpdateStateChannel) == 1)
 	env.Reach("C12.fullqueue.done")
 }
